@@ -53,7 +53,7 @@ def _unescape(s):
 
 def run_tlc(scratch, tla, cfg, *, simulate=None, depth=None, seed=0, workers=None,
             timeout=600, out_traces=None, coverage=False, tag="tlc", extra_files=(), deadlock=True,
-            heap=None, append_traces=False):
+            heap=None, append_traces=False, cfg_subst=None):
     """Run TLC on spec/<tla> with spec/<cfg>. TRACE lines are written (as
     JSON, one per line) to out_traces; GRAPHS/CASE lines are returned.
     Returns a dict with states/distinct/depth/ok/errors/coverage."""
@@ -63,6 +63,15 @@ def run_tlc(scratch, tla, cfg, *, simulate=None, depth=None, seed=0, workers=Non
         if f.endswith(".tla"):
             shutil.copy(os.path.join(SPEC, f), wd)
     shutil.copy(os.path.join(SPEC, cfg), wd)
+    if cfg_subst:
+        # per-check variation of a committed configuration (e.g. which rolled-back
+        # transactions are generated); every substitution must apply
+        text = open(os.path.join(wd, cfg)).read()
+        for old, new in cfg_subst.items():
+            if old not in text:
+                raise Broken("cfg substitution %r does not apply to %s" % (old, cfg))
+            text = text.replace(old, new)
+        open(os.path.join(wd, cfg), "w").write(text)
     for f in extra_files:
         shutil.copy(f, wd)
     cmd = ["tlc", "-metadir", os.path.join(wd, "md"), "-config", cfg]
